@@ -12,6 +12,7 @@ import (
 	"reflect"
 	"time"
 
+	sdk "github.com/cosmos/cosmos-sdk/types"
 	paramtypes "github.com/cosmos/cosmos-sdk/x/params/types"
 	minttypes "github.com/jackalLabs/canine-chain/v4/x/jklmint/types"
 	oracletypes "github.com/jackalLabs/canine-chain/v4/x/oracle/types"
@@ -111,5 +112,56 @@ func c05PersistedParams(r *RunCtx) error {
 		}
 	}
 	r.Hist("persisted-state", "chain: the first blocks of the new binary complete")
+	return nil
+}
+
+// c05Strikes: a registered provider (collateral locked) takes a seat on five files by valid proofs and then goes silent:
+// reward block after reward block strikes it for every file it held (the burn counter passes every threshold a small
+// parameter could set), with whole-app blocks in between.  Block processing completes throughout.
+func c05Strikes(r *RunCtx) error {
+	e, err := NewEnv()
+	if err != nil {
+		return err
+	}
+	defer e.Close()
+	sp := StorageParams(e)
+	sp.CheckWindow, sp.ProofWindow = 5, 3
+	GovSetStorageParams(e, sp)
+	owner, lazy := Acct(1), Acct(2)
+	_ = e.Fund(owner, "ujkl", 4_000_000_000_000_000)
+	_ = e.Fund(lazy, "ujkl", 4_000_000_000_000_000)
+	trace := []interface{}{}
+	step := func(what string, m sdk.Msg) {
+		res := e.Run(m)
+		r.Hist("chain_msgs", what+":"+res.Out)
+		trace = append(trace, map[string]interface{}{"block": e.Height, "msg": what, "out": res.Out, "err": res.Err})
+	}
+	step("storage.MsgInitProvider(lazy)", &storagetypes.MsgInitProvider{Creator: lazy.String(), Ip: "https://lazy.example.com", TotalSpace: 1 << 40})
+	step("storage.MsgBuyStorage", &storagetypes.MsgBuyStorage{Creator: owner.String(), ForAddress: owner.String(), DurationDays: 30, Bytes: 5_000_000_000, PaymentDenom: "ujkl"})
+	for i := 0; i < 5; i++ {
+		data := []byte(fmt.Sprintf("struck-file-%d", i))
+		root, item, pj := c05OneChunkFile(data)
+		step("storage.MsgPostFile(struck)", &storagetypes.MsgPostFile{Creator: owner.String(), Merkle: root, FileSize: int64(len(data)), MaxProofs: 3, Note: "{}"})
+		step("storage.MsgPostProof(lazy, once)", &storagetypes.MsgPostProof{Creator: lazy.String(), Item: item, HashList: pj, Merkle: root, Owner: owner.String(), Start: e.Height, ToProve: 0})
+		if i%2 == 1 {
+			if pn, where := c05NextBlock(e, 6*time.Second); pn != "" {
+				r.Finding("C05/beginblock-panic/"+where, "the assembled app panicked in "+where+" after valid transactions: "+pn, map[string]interface{}{"trace": trace, "height": e.Height})
+				return nil
+			}
+		}
+	}
+	for b := 0; b < 30; b++ {
+		pn, where := c05NextBlock(e, 6*time.Second)
+		r.Count(fmt.Sprintf("strikes:%d", b), true)
+		r.Hist("whole_app_block", map[bool]string{true: "panic in " + where, false: "completed"}[pn != ""])
+		if pn != "" {
+			pv, _ := e.App.StorageKeeper.GetProviders(e.Ctx, lazy.String())
+			r.Finding("C05/beginblock-panic/"+where, fmt.Sprintf("a registered provider held five files and stopped proving; the assembled app panicked in %s at height %d (burn counter %s): %s", where, e.Height, pv.BurnedContracts, pn),
+				map[string]interface{}{"trace": trace, "height": e.Height})
+			return nil
+		}
+	}
+	pv, _ := e.App.StorageKeeper.GetProviders(e.Ctx, lazy.String())
+	r.Hist("strikes", "burn counter of the silent provider after 30 blocks: "+pv.BurnedContracts)
 	return nil
 }
